@@ -270,6 +270,8 @@ func runC04(c *Ctx, phase string) {
 	c.Floor("extract_invalid", 500)
 	c.Floor("pool_valid_compound", 100)
 	c.Floor("validate_lists_with_case_twins", 1000)
+	c.Floor("validate_long_lists", 1000)
+	c.Floor("satisfies_long_lists", 1000)
 
 	pool := buildPool(c, nPool)
 	var valid, invalid, singles, compounds []int
@@ -301,12 +303,16 @@ func runC04(c *Ctx, phase string) {
 		judgeC04(c, cs, nil)
 		c.Distinct(gen.HashStr("ext", p.S))
 	}
-	reuse := make([]string, 0, 16)
+	reuse := make([]string, 0, 160)
 	for i := 0; i < nCases; i++ {
 		r := gen.NewRand(c.Seed, 0xC044, uint64(c.Shard), uint64(i))
 		if r.Chance(1, 3) {
 			// ValidateLicenses on a list with repeats
 			n := r.Intn(13)
+			if r.Chance(1, 8) {
+				n = 13 + r.Intn(140) // long lists: chunked / parallel / indexed implementations have thresholds and remainders
+				c.Inc("validate_long_lists")
+			}
 			list := make([]string, n)
 			for j := range list {
 				switch {
@@ -326,6 +332,15 @@ func runC04(c *Ctx, phase string) {
 					list[a], list[b] = pool[t].S, pool[pool[t].Twin-1].S
 					c.Inc("validate_lists_with_case_twins")
 				}
+			}
+			if n > 12 && r.Chance(1, 2) {
+				// an invalid entry in the last few positions (and only there)
+				for j := range list {
+					if !c.ValidCached(list[j]) {
+						list[j] = pool[valid[r.Intn(len(valid))]].S
+					}
+				}
+				list[n-1-r.Intn(3)] = pool[invalid[r.Intn(len(invalid))]].S
 			}
 			cs := C04Case{Kind: "validate", List: ev.QSs(list), NilList: n == 0 && r.Chance(1, 2)}
 			if list == nil {
@@ -350,6 +365,9 @@ func runC04(c *Ctx, phase string) {
 		n := r.Intn(9)
 		if r.Chance(1, 12) {
 			n = 0
+		} else if r.Chance(1, 10) {
+			n = 9 + r.Intn(120)
+			c.Inc("satisfies_long_lists")
 		}
 		list := make([]string, n)
 		comp := make([]bool, n)
